@@ -376,7 +376,7 @@ func init() {
 // never changes (see SteadyCase).
 func TestC09Steady(t *testing.T) {
 	h := vk.Start(t, "C09", "steady")
-	n := h.Pick(24, 400)
+	n := h.Pick(24, 200)
 	rng := h.RNG("steady")
 	tl := vk.NewTally()
 	for i := 0; i < n && !h.Failed(); i++ {
